@@ -8,15 +8,15 @@ compact = subprocess.check_output(["python3", V + "/lib/seedtable.py", "--compac
 open(V + "/seeded/INDEX.md", "w").write("# Seeded changes\n\nOne row per change under `/verif/seeded/<id>-<variant>/` (patch.diff, the demonstration, meta.json, run.log).\n\n" + full)
 metas = [json.load(open(f)) for f in sorted(glob.glob(V + "/seeded/*/meta.json"))]
 n = len(metas)
+excl = [os.path.basename(os.path.dirname(f)) for f in sorted(glob.glob(V + "/seeded/*/meta.json")) if json.load(open(f)).get("excluded")]
 missed = [os.path.basename(os.path.dirname(f)) for f in sorted(glob.glob(V + "/seeded/*/meta.json")) if not json.load(open(f)).get("detected") and not json.load(open(f)).get("excluded")]
 head = """## 10. Seeded changes (`/verif/seeded/<id>-<variant>/`) and which check catches them
 
 Independent sub-agents, given only the property text and a scratch worktree (nothing from /verif),
 wrote changes that compile, pass the pinned suite and break the property only under something
 specific (an interleaving, a fault at one point, a long history, an unusual input or configuration,
-two sites that each look fine alone).  Four waves of two changes per property were produced (a/b,
-c/d, e/f, g/h); later waves were told what the earlier ones had done and asked for different
-mechanisms.  Each change was confirmed with `lib/seedcheck.sh` (fresh worktree of `/repo`: the
+two sites that each look fine alone).  Eleven waves of two changes per property were produced (a/b
+to u/v); every wave was told what the earlier ones had done and asked for different mechanisms.  Each change was confirmed with `lib/seedcheck.sh` (fresh worktree of `/repo`: the
 demonstration passes without and fails with the change, `go build`, the full suite, then
 `VERIF_REPO=<worktree> ./check <id> quick`); `meta.json` records what was run and the result,
 `run.log` the violation keys.  %d changes are stored; %s.  Most changes of the later waves escaped the
@@ -26,7 +26,7 @@ current tree because a later fix rewrote the same lines is verified against the 
 (`SEED_BASE`, noted in its meta.json).  The first violation key of the quick tier is shown; the full
 text of every change is in `seeded/INDEX.md`.
 
-""" % (n, "all are detected by the quick tier" if not missed else "not detected: " + ", ".join(missed))
+""" % (n, ("all are detected by the quick tier" if not missed else "not detected: " + ", ".join(missed)) + (" except %s, which can only show when two mutating admin requests overlap - the program serialises those, so they are recorded as unreachable, not as misses" % " and ".join(excl) if excl else ""))
 s = open(V + "/DESIGN.md").read()
 a = s.index("## 10. Seeded changes")
 b = s.index("---------------------------------------------------------------------------------------------", a)
